@@ -57,6 +57,9 @@ def materialise(v: dict, root: str) -> str:
             if pl["blanks"]:
                 body.append("")
             body.append(f"      {fn}: {ft}" + ("  # a field" if pl["comments"] > 1 else ""))
+    if d["fields"]:
+        # a second message that takes its field list from the definition under edit (the documented `fields: OTHER` form)
+        body += ["  REUSE_M:", f"    id: {d['id'] + 500}", f"    fields: {d['name']}"]
     unrelated = ["  UNREL%d:\n    id: %d\n    fields:\n      q: int16\n      r: int16" % (i, 2000 + i) for i in range(pl["unrelated"])]
     sbody = "      x: int32\n" + ("      y: int32\n" if pl.get("structbody", 0) else "")
     other = "struct_defs:\n  OTHER_S:\n    fields:\n" + sbody + "constants:\n  OTHER_C: 3\n"
@@ -89,8 +92,12 @@ def real_hash(v: dict, root: str) -> Optional[str]:
     p, err = defs.parse(path, import_coredefs=False)
     if err is not None:
         raise RuntimeError(f"version does not compile: {err!r}")
+    r = p.message_defs.get("REUSE_M")
+    REUSE_HASH[json.dumps(v, sort_keys=True)] = r.hash[:8] if r is not None else None
     return p.message_defs[v["def"]["name"]].hash[:8]
 
+
+REUSE_HASH: Dict[str, Optional[str]] = {}
 
 SUB = r"""
 import sys, json, os
@@ -197,7 +204,7 @@ def run(tier: str, seed: int) -> Dict[str, Any]:
     rnd = random.Random(seed)
     d = tempfile.mkdtemp(prefix="c13_")
     viol: List[dict] = []
-    nver = npairs = nlang = nsub = nstamp = 0
+    nver = npairs = nlang = nsub = nstamp = nreuse = 0
     try:
         cfg = os.path.join(d, "mc.cfg")
         open(cfg, "w").write(CFG.format(steps=3 if q else 4, gen="FALSE", checks="PROPERTY EditChanges\nPROPERTY NoiseKeeps"))
@@ -239,6 +246,19 @@ def run(tier: str, seed: int) -> Dict[str, Any]:
                 finally:
                     shutil.rmtree(root, ignore_errors=True)
                 hashes.append(h)
+            # the reuse-form message, step by step: its key is (REUSE_M, id + 500, the field list it takes over)
+            for k in range(1, len(beh)):
+                a = beh[k]["a"]
+                d0, d1 = beh[k - 1]["v"]["def"], beh[k]["v"]["def"]
+                r0, r1 = REUSE_HASH.get(json.dumps(beh[k - 1]["v"], sort_keys=True)), REUSE_HASH.get(json.dumps(beh[k]["v"], sort_keys=True))
+                if r0 is None or r1 is None:
+                    continue
+                nreuse += 1
+                key_same = (d0["id"], d0["fields"]) == (d1["id"], d1["fields"])
+                if key_same and r0 != r1:
+                    viol.append({"signature": f"C13/SensitiveToNoise/reuse-form:{a}", "replay": {"behaviour": beh[k - 1: k + 1], "hashes": [r0, r1]}})
+                if not key_same and r0 == r1:
+                    viol.append({"signature": f"C13/InsensitiveToEdit/reuse-form:{a}", "replay": {"behaviour": beh[k - 1: k + 1], "hashes": [r0, r1]}})
             canon = [json.dumps([s["v"]["def"]["name"], s["v"]["def"]["id"], s["v"]["def"]["fields"]]) for s in beh]
             for i in range(len(beh)):
                 for j in range(i + 1, len(beh)):
@@ -315,7 +335,7 @@ def run(tier: str, seed: int) -> Dict[str, Any]:
         shutil.rmtree(d, ignore_errors=True)
     cov = {"states": mc.get("distinct", 0), "transitions": mc.get("states", 0), "traces_validated_against_impl": len(behs),
            "versions_compiled": nver, "version_pairs_compared": npairs, "four_language_comparisons": nlang,
-           "other_process_recompiles": nsub, "in_place_rebuilds": nrebuild, "stamped_headers_checked": nstamp, "exhaustive": False,
+           "other_process_recompiles": nsub, "in_place_rebuilds": nrebuild, "stamped_headers_checked": nstamp, "reuse_form_steps_compared": nreuse, "exhaustive": False,
            "samples": [{"behaviour": behs[0]}],
            "explanation": "HashCanon.tla model checked (edits change Canon, noise does not); TLC -simulate behaviours of edits/relocations are "
                           "materialised and compiled by the real compiler; equal hash <=> equal canonical key for every pair of versions"}
@@ -393,6 +413,9 @@ def _send_case(args):
                 bad.append((f"ClientSend/addressing:{kind}", f"src {smod}/{shost} dst {dm}/{dh}"))
             if kind == "message" and ver != cd.MDF_MODULE_READY.type_hash:
                 bad.append(("C13/NotStamped/send_message", f"version {ver:#x}"))
+            if kind == "signal" and ver != 0:
+                # send_signal() has no definition instance at hand: the field stays 0 ("not filled in"), never another definition's hash
+                bad.append(("C13/NotStamped/send_signal:foreign-hash", f"version {ver:#x} in a signal sent after other messages"))
             if kind == "message0" and (ver != cd.MDF_EXIT.type_hash or mt != cd.MT_EXIT):
                 bad.append(("C13/NotStamped/send_message:no-fields", f"type {mt} version {ver:#x}"))
         c._connected = False
